@@ -22,6 +22,11 @@ func signature(kind string, c any, msg string) string {
 			}
 		}
 	}
+	if sc, ok := c.(SWCase); ok && (strings.Contains(msg, "in-domain input not satisfiable") || strings.Contains(msg, "wrong claimed output")) {
+		if oppositeYDistinctX(&sc) {
+			return SigAddUnifiedOppY
+		}
+	}
 	for _, k := range knownSignatures {
 		if strings.Contains(msg, k.needle) {
 			return k.sig
@@ -36,7 +41,55 @@ var knownSignatures = []struct{ needle, sig string }{
 	{"solver does not return: the halfGCDEisenstein hint", SigEisenstein},
 }
 
+// oppositeYDistinctX reports whether two operands (or two scalar-multiplied
+// terms of a complete-arithmetic sum) have y1 = -y2 with x1 != x2, e.g. Q = -phi(P).
+func oppositeYDistinctX(c *SWCase) bool {
+	cv := curves[c.Curve]
+	var terms []point
+	switch c.Op {
+	case opAddU:
+		for _, p := range c.Points {
+			terms = append(terms, p.point())
+		}
+	case opJoint:
+		if !c.Complete {
+			return false
+		}
+		terms = append(terms, cv.mul(c.Points[0].point(), c.Scalars[0].value()), cv.mul(cv.G, c.Scalars[1].value()))
+	case opMSM:
+		if !c.Complete {
+			return false
+		}
+		for i := range c.Points {
+			terms = append(terms, cv.mul(c.Points[i].point(), c.Scalars[i].value()))
+		}
+		// partial sums of the pairs are combined with AddUnified as well
+		acc := inf()
+		for _, t := range terms {
+			acc = cv.add(acc, t)
+			terms = append(terms, acc)
+		}
+	default:
+		return false
+	}
+	for i := range terms {
+		for j := i + 1; j < len(terms); j++ {
+			a, b := terms[i], terms[j]
+			if a.isInf() || b.isInf() || a.X.Cmp(b.X) == 0 {
+				continue
+			}
+			if new(big.Int).Mod(new(big.Int).Add(a.Y, b.Y), cv.P).Sign() == 0 {
+				return true
+			}
+		}
+	}
+	return false
+}
+
 const (
+	// AddUnified (emulated and native): for y1 = -y2 with x1 != x2 (e.g. Q = -phi(P) on j=0 curves) the
+	// gadget returns (0,0) instead of P+Q
+	SigAddUnifiedOppY = "addunified-opposite-y-distinct-x"
 	// sw_emulated ScalarMul / ScalarMulBase / MultiScalarMul without complete arithmetic: s = +-1 (mod r) is inside the
 	// documented domain (s != 0, Q != (0,0)) but the circuit is unsatisfiable ([s]P = +-P meets the incomplete addition)
 	SigScalarOne = "emulated-scalarmul-incomplete-scalar-pm1"
